@@ -4,9 +4,10 @@
 * strip_wrappers: token-level, brace-matching `do { X } while (0)` -> X.
 * ref_macro_text: which lines of a QEMU macro header are active (conditional stack), includes dropped;
   comments, continuation lines and #define parsing are left to the C preprocessor.
-* ref_combined: reference input of the C preprocessor = active original lines + patch file + shortcode
-  (a later #define replaces every earlier definition of that name, so every patch replaces all
-  original definitions of its macro, and patches without an original are simply added).
+  (The reference input of the C preprocessor = active original lines + patch file + shortcode is
+  assembled in vf.props.c20.ref_input: a later #define replaces every earlier definition of that
+  name, so every patch replaces all original definitions of its macro, and patches without an
+  original are simply added.)
 * cpp: clang -E -P -x assembler-with-cpp (gcc as a second opinion).
 """
 import re
@@ -208,17 +209,6 @@ def _strip_comments(line, in_comment):
         out.append(c)
         i += 1
     return "".join(out), in_comment
-
-
-def ref_combined(macro_files, patches_text, shortcode_text):
-    """macro_files: [(text, is_vec)] in the order macros.inc, macros.h, macros_mmvec.h."""
-    defined = set()
-    parts = []
-    for text, is_vec in macro_files:
-        parts.append(ref_macro_text(text, is_vec, defined))
-    parts.append(patches_text if patches_text.endswith("\n") else patches_text + "\n")
-    parts.append(shortcode_text)
-    return "\n".join(parts)
 
 
 # --------------------------------------------------------------------------------------
